@@ -32,6 +32,7 @@ type Oblig struct {
 	Values   []string // terms to query from a model
 	ValNames []string
 	Res      SolveResult
+	Trace    []string
 	Stage    string // proof | R1
 	hasQ     bool
 }
@@ -77,6 +78,7 @@ type Exec struct {
 	iterMap    map[ssa.Value]Val
 	alloc0     string
 	canaryDone bool
+	alias      map[string][]string // backing-array term -> arrays it may denote (append results)
 	probeVar   string
 	idxLog     *[]IdxT           // collector of (index, sequence) pairs read while evaluating a quantifier body
 	probe      *[]SeqRef         // collector of sequences indexed by a probe variable (see seqsOf)
@@ -116,7 +118,7 @@ func (x *Exec) note(s string) { x.notes[s] = true }
 func newExec(eng *Engine, fn *ssa.Function, con *Contract, key string, bound int) *Exec {
 	return &Exec{eng: eng, decls: newDecls(), fn: fn, con: con, key: key, bound: bound, tags: map[string]int{}, strs: map[string]int{},
 		keyTypes: map[string]types.Type{}, arrStorage: map[string]bool{}, labels: map[ssa.Instruction]string{}, loops: map[*ssa.Function]*LoopInfo{},
-		notes: map[string]bool{}, iterMap: map[ssa.Value]Val{}, proveCache: map[string]bool{}, errGlobals: map[string]bool{}, noWrapRec: map[string]bool{}}
+		notes: map[string]bool{}, alias: map[string][]string{}, iterMap: map[ssa.Value]Val{}, proveCache: map[string]bool{}, errGlobals: map[string]bool{}, noWrapRec: map[string]bool{}}
 }
 
 // ---------- labels ----------
@@ -240,7 +242,7 @@ func (x *Exec) where(in ssa.Instruction) string {
 // ---------- obligations ----------
 
 func (x *Exec) emit(fr *Frame, st *State, name, kind string, goal *F, in ssa.Instruction) *Oblig {
-	o := &Oblig{Name: x.key + "#" + fr.prefix + name, Kind: kind, Fn: x.key, Where: x.where(in), PC: st.pc[:len(st.pc):len(st.pc)], Goal: goal, Idx: st.idx[:len(st.idx):len(st.idx)]}
+	o := &Oblig{Name: x.key + "#" + fr.prefix + name, Kind: kind, Fn: x.key, Where: x.where(in), PC: st.pc[:len(st.pc):len(st.pc)], Goal: goal, Idx: st.idx[:len(st.idx):len(st.idx)], Trace: st.trace[:len(st.trace):len(st.trace)]}
 	x.obs = append(x.obs, o)
 	return o
 }
@@ -473,8 +475,10 @@ func (x *Exec) instrs(fr *Frame, st *State, b *ssa.BasicBlock, from int) {
 			}
 			s2 := st.clone()
 			st.assume(cond.S)
+			st.trace = append(st.trace, x.where(in)+":T")
 			x.block(fr, st, b.Succs[0], b)
 			s2.assume(sNot(cond.S))
+			s2.trace = append(s2.trace, x.where(in)+":F")
 			x.block(fr, s2, b.Succs[1], b)
 			return
 		case *ssa.Jump:
